@@ -367,6 +367,9 @@ def larger_descriptions(chunk, replay=None):
     n_cases = 25 if tier != "thorough" else 500
     NX, NY = 9, 7
     failures, evals, nontriv, samples = [], 0, 0, []
+    import tempfile
+    tmpdir = tempfile.mkdtemp(prefix="vf_c01_")
+    die_file = os.path.join(tmpdir, "die.yaml")
 
     def build(layout, kinds, s):
         W, H = NX * s, NY * s
@@ -406,6 +409,23 @@ def larger_descriptions(chunk, replay=None):
             nontriv += 1
             if res:
                 failures.append(dict(clause="big." + res[0], layout=layout, kinds=kinds, scale=s, observed=res[1], yaml=txt, netlist=net))
+            else:
+                # the same description given as a FILE NAME; the file is rewritten for every case (added after seed C01-11: descriptions
+                # memoised by their string argument returned the previous content of the file)
+                if replay:      # the file held another description before, as in the run that found the failure
+                    with open(die_file, "w") as fh:
+                        fh.write("width: 3\nheight: 2\n")
+                    try:
+                        Die(die_file)
+                    except Exception:  # noqa
+                        pass
+                with open(die_file, "w") as fh:
+                    fh.write(txt)
+                evals += 1
+                res = _check_die(W, H, regs, fixed, die_file, net)
+                if res:
+                    failures.append(dict(clause="big.from_a_file." + res[0], layout=layout, kinds=kinds, scale=s, observed=res[1], yaml=txt, netlist=net,
+                                         note="the description was read from a file that held another description before"))
             if not samples:
                 samples.append(dict(regions=len(layout), scale=s, yaml=txt))
         # the same description with one defect: two regions overlapping by a lattice cell, or one region leaving the die
@@ -440,6 +460,8 @@ def larger_descriptions(chunk, replay=None):
         if len(failures) >= 4 or replay:
             break
     Rectangle.undefine_epsilon()
+    import shutil
+    shutil.rmtree(tmpdir, ignore_errors=True)
     return dict(evaluations=evals, distinct_nontrivial=nontriv, exhaustive=False, failures=failures[:4],
                 rule="random layouts of 4-9 pairwise disjoint lattice rectangles (tagged specialised A / B, blockage, fixed by a netlist) on a 9x7 lattice, die "
                      "scaled by 1, 0.1, 0.001, 1/3, 123.456, through the YAML text and the real constructor: accepted, inputs reported unchanged, exact tiling; "
